@@ -241,21 +241,22 @@ def with_calls(events, calls):
     return [(e[0], e[1], calls[e[1]]) if e[0] == 'C' else e for e in events]
 
 
-def conc_case_text(state, direction, cfg, calls, events, res, flat=False):
-    per = [L.encode_obs(o, res['rank']) for o in res['per_event']]
+def conc_case_text(state, direction, cfg, calls, events, res, flat=False, listeners=False):
+    per = [L.encode_obs(o, res['rank'], listeners) for o in res['per_event']]
     captured = set(res['rank'])
     done = all(j in res['results'] for j in captured)
     if flat:
         exp = [[x for p in per for x in p], res['final'], [1 if done else 0]]
     else:
         exp = per + [res['final'], [1 if done else 0]]
-    return ('flat' if flat else 'out', L.coq_transfer(state, direction, cfg), [L.coq_call(c) for c in calls], list(events), exp)
+    return ('lout' if listeners else ('flat' if flat else 'out'), L.coq_transfer(state, direction, cfg), [L.coq_call(c) for c in calls],
+            list(events), exp)
 
 
 def explore(tmp, state, direction, cfg, calls, mon: Monitor, run: Run, max_nodes=4000, slow_listener=False):
     """all schedules of the given calls (captures in index order), pruned on identical harness states.
     slow_listener: three listeners, the first one suspends (completion = one more 'T' event); these runs are judged by
-    the monitors only (the model has no suspending listeners)"""
+    the monitors and compared with the listener machine of C03/Listen.v"""
     ctx = {'state': state, 'direction': direction, 'cfg': cfg, 'level': 'state'}
     if slow_listener:
         ctx['slow_listener'] = True
@@ -279,8 +280,8 @@ def explore(tmp, state, direction, cfg, calls, mon: Monitor, run: Run, max_nodes
                           res['enabled'], [[list(map(str, o)) for o in p] for p in res['per_event'] if p]], default=str)
         en = res['enabled']
         if sig in seen or not en:
-            if not slow_listener:
-                cases.append((conc_case_text(state, direction, cfg, calls, ev, res), c2))
+            if not any(e[0] == 'U' for e in ev):    # 'U' cannot happen while notification is inside the lock: no model event
+                cases.append((conc_case_text(state, direction, cfg, calls, ev, res, listeners=slow_listener), c2))
             run.case({'state': state, 'dir': direction, 'calls': [c[0] for c in calls], 'schedule': ''.join(e[0] for e in ev),
                       'slow': slow_listener},
                      nontrivial=len(ev) >= 2 * len(calls), kind=f'schedule-{len(calls)}calls' + ('-slow-listener' if slow_listener else ''))
@@ -407,7 +408,7 @@ def run(run: Run):
                     'pinned/state_graph.json = documented graph (cross-checked with the diagram source in the repository on each run)']
     run.assumptions += ['transition methods are only invoked through Transfer.state (as the manager does)',
                         'listeners do not themselves call transition methods of the same transfer']
-    run.prove(['tr_state'], extra_targets=['theories/C03/Eval.vo'])
+    run.prove(['tr_state', 'tr_transfer'], extra_targets=['theories/C03/Eval.vo'])
     check_pins(run)
     run.cov['redispatch_after_lock'] = L.gen_constant('redispatch_after_lock')
     mon = Monitor(run)
@@ -467,7 +468,8 @@ def run(run: Run):
                 for cfg in slow_cfgs:
                     for a in L.OPS:
                         for b in L.OPS:
-                            explore(tmp, state, direction, cfg, [one_call(a), one_call(b)], mon, run, max_nodes=600, slow_listener=True)
+                            cases += explore(tmp, state, direction, cfg, [one_call(a), one_call(b)], mon, run, max_nodes=600,
+                                             slow_listener=True)
         if run.tier == 'thorough':
             ops3 = ['abort', 'pause', 'queue']
             for state in L.STATES:
